@@ -174,7 +174,18 @@ def match_known(known, prop, hname, viol):
     if ka is not None and viol["assertion"] not in (ka if isinstance(ka, list) else [ka]):
       continue
     m = k.get("match", {})
-    if all(str(d.get(a)) == str(b) for a, b in m.items()) if isinstance(d, dict) else not m:
+    if not isinstance(d, dict):
+      if not m:
+        return k
+      continue
+    ok = True
+    for a, b in m.items():
+      if isinstance(b, list):   # every listed tag must be among the violation's tags
+        have = d.get(a)
+        ok = ok and isinstance(have, list) and all(x in have for x in b)
+      else:
+        ok = ok and str(d.get(a)) == str(b)
+    if ok:
       return k
   return None
 
